@@ -13,6 +13,13 @@ pub fn global_shader_stages(module: &naga::Module) -> BTreeMap<String, wgpu::Sha
 
     for entry in &module.entry_points {
         let stage = naga_stages(entry.stage);
+        #[cfg(feature = "verif")]
+        crate::verif::emit_detail(|| {
+            format!(
+                "{{\"ev\":\"stage.entry\",\"entry\":{}}}",
+                crate::verif::js(&entry.name)
+            )
+        });
         update_stages(module, &entry.function, &mut global_stages, stage);
     }
 
@@ -41,6 +48,8 @@ fn update_stages_blocks(
     global_stages: &mut BTreeMap<String, wgpu::ShaderStages>,
     stage: wgpu::ShaderStages,
 ) {
+    #[cfg(feature = "verif")]
+    crate::verif::work(crate::verif::STAGE_NODES, block.len() as u64);
     for statement in block.iter() {
         match statement {
             naga::Statement::Block(block) => {
@@ -75,6 +84,17 @@ fn update_stages(
     global_stages: &mut BTreeMap<String, wgpu::ShaderStages>,
     stage: wgpu::ShaderStages,
 ) {
+    #[cfg(feature = "verif")]
+    {
+        crate::verif::work(crate::verif::STAGE_FNS, 1);
+        crate::verif::work(crate::verif::STAGE_NODES, function.expressions.len() as u64);
+        crate::verif::emit_detail(|| {
+            format!(
+                "{{\"ev\":\"stage.walk\",\"fn\":{}}}",
+                crate::verif::js(function.name.as_deref().unwrap_or(""))
+            )
+        });
+    }
     // Search the function body to find function call statements
     update_stages_blocks(module, &function.body, global_stages, stage);
 
